@@ -192,48 +192,88 @@ def r2(F, R):
             R.ok("C19-R2", cs.path + ":settings_ref", site, "captured settings reference = &settings of the value moved into the controller thread")
         else:
             R.bad("C19-R2", cs.path + ":settings_ref", site, "captured settings reference is not a borrow of the thread's own settings value")
-    # zarr backends
+    # zarr backends: scope = new_trace, its nested closures / async blocks and the storage helpers they call
     n = 0
+    cg = F.callgraph()
     for b in F.trait_method_impls("StorageConfig", "new_trace"):
-        bodies = [b] + K.all_closures_of(F, b.path)
-        tv = [(x, t) for x in bodies for bb, t in x.calls() if strip_generics(t["callee"].get("path", "")).endswith("serde_json::to_value")]
+        if "zarr" not in b.path:
+            continue
+        scope = [F.bodies[p] for p in sorted(cg.reachable([b.path])) if p.startswith(("storage::", "<storage::"))]
+        tv = [(x, t) for x in scope for bb, t in x.calls() if strip_generics(t["callee"].get("path", "")).endswith("serde_json::to_value")]
+        site = "%s @%s" % (b.path, b.loc())
         if not tv:
+            R.bad("C19-R2", b.path + ":to_value", site, "the Zarr trace does not serialise the settings (no serde_json::to_value reachable from new_trace)")
             continue
         n += 1
-        site = "%s @%s" % (b.path, b.loc())
         for x, t in tv:
-            v = x.value(t["args"][0])
-            base = v
-            while base[0] in ("ref", "deref"):
-                base = base[1]
-            hops = 0
-            y = x
-            while base[0] == "upvar" and hops < 4:
-                src = K.capture_sources(F, y).get(base[1])
-                if not src:
-                    break
-                y, base = src
-                while base[0] in ("ref", "deref"):
-                    base = base[1]
-                hops += 1
+            ok_, how = _traces_to_settings_param(F, cg, b, x, x.value(t["args"][0]), 0)
             key = b.path + ":to_value"
-            if base[0] == "arg" and base[2] == "settings" and y.path == b.path:
-                R.ok("C19-R2", key, "%s @%s" % (x.path, loc(t["span"])), "serde_json::to_value(settings parameter)%s" % (" through %d capture(s)" % hops if hops else ""))
+            if ok_:
+                R.ok("C19-R2", key, "%s @%s" % (x.path, loc(t["span"])), "serde_json::to_value(settings parameter of new_trace)%s" % how)
             else:
-                R.bad("C19-R2", key, "%s @%s" % (x.path, loc(t["span"])), "serialised value is %s, not the settings parameter" % vt_str(v))
-            ins = []
-            for bb2, t2 in x.calls():
-                if t2["callee"].get("name") == "insert":
-                    vs = [x.value(a) for a in t2["args"]]
-                    if any(n_[0] == "call" and strip_generics(n_[1]).endswith("serde_json::to_value") for q in vs for n_ in vt_walk(q)):
-                        ins.append(vs)
-            keyok = any(any(n_[0] == "const" and "sampler_settings" in str(n_[2] or n_[1]) for n_ in vt_walk(q)) for vs in ins for q in vs)
-            if ins and keyok:
-                R.ok("C19-R2", b.path + ":attribute", site, "stored under attribute \"sampler_settings\"")
-            else:
-                R.bad("C19-R2", b.path + ":attribute", site, "serialised settings are not inserted under \"sampler_settings\"")
+                R.bad("C19-R2", key, "%s @%s" % (x.path, loc(t["span"])), "serialised value is not new_trace's settings parameter: %s" % how)
+        # the attribute is written unconditionally: a Map::insert with the key, and no insert-if-absent anywhere in scope
+        has_key = False
+        inserts = 0
+        cond = []
+        for x in scope:
+            for bb, t in x.calls():
+                pth = strip_generics(t["callee"].get("path", ""))
+                if pth.endswith("Map::insert") or (t["callee"].get("name") == "insert" and "serde_json" in pth):
+                    inserts += 1
+                if "or_insert" in (t["callee"].get("name") or "") or pth.endswith(("Map::entry", "VacantEntry::insert")) and "serde_json" in pth:
+                    cond.append((x, t))
+                for a in t["args"]:
+                    v = x.value(a)
+                    if any(n_[0] == "const" and "sampler_settings" in str(n_[2] or n_[1]) for n_ in vt_walk(v)):
+                        has_key = True
+        if cond:
+            for x, t in cond:
+                R.bad("C19-R2", b.path + ":attribute-conditional", "%s @%s" % (x.path, loc(t["span"])),
+                      "attributes are inserted only if absent (%s): metadata of an earlier run in the same store survive and no longer describe this run" % t["callee"].get("name"))
+        elif has_key and inserts:
+            R.ok("C19-R2", b.path + ":attribute", site, "stored under attribute \"sampler_settings\" by an overwriting insert (%d inserts in scope)" % inserts)
+        else:
+            R.bad("C19-R2", b.path + ":attribute", site, "serialised settings are not inserted under \"sampler_settings\" (key seen: %s, overwriting inserts: %d)" % (has_key, inserts))
     if "zarr" in C10.features(F) and n < 2:
         R.missing("C19-R2", "Zarr new_trace serialising the settings (found %d, expected 2)" % n)
+
+
+def _traces_to_settings_param(F, cg, root, x, v, depth):
+    """Does value tree v (in body x) denote the `settings` parameter of root (= new_trace)? Looks through captures and helper parameters."""
+    base = v
+    while base[0] in ("ref", "deref"):
+        base = base[1]
+    if depth > 4:
+        return False, "too deep"
+    if base[0] == "upvar":
+        src = K.capture_sources(F, x).get(base[1])
+        if not src:
+            return False, "capture %s has no source" % base[1]
+        ok_, how = _traces_to_settings_param(F, cg, root, src[0], src[1], depth + 1)
+        return ok_, how + " via capture `%s`" % base[1]
+    if base[0] == "arg":
+        if x.path == root.path:
+            return (base[2] == "settings"), (" " if base[2] == "settings" else "parameter `%s`" % base[2])
+        # helper: every call of x within the scope must pass the settings at this position
+        scope_paths = cg.reachable([root.path])
+        callers = [F.bodies[c] for c in cg.callers_of(x.path) if c in F.bodies and c in scope_paths]
+        if not callers:
+            return False, "helper %s has no caller" % x.path
+        hows = []
+        for cb in callers:
+            for bb, t in cb.calls():
+                tgt = t["callee"].get("resolved") or t["callee"].get("path")
+                if tgt != x.path or base[1] - 1 >= len(t["args"]):
+                    continue
+                ok_, how = _traces_to_settings_param(F, cg, root, cb, cb.value(t["args"][base[1] - 1]), depth + 1)
+                if not ok_:
+                    return False, "helper %s is called with %s" % (x.path, how)
+                hows.append(how)
+        if not hows:
+            return False, "no resolved call of helper %s" % x.path
+        return True, " via helper %s" % x.path.split("::")[-1]
+    return False, vt_str(v)
 
 
 def r3(F, R):
